@@ -171,7 +171,8 @@ fn main() {
     let plan = (prop.plan)(tier);
     let start = Instant::now();
     let budget = Duration::from_secs_f64(plan.budget_s * env_scale());
-    let res = run_sharded(prop.meta.id, tier, seed, plan.nshards, budget, plan.mem_gib);
+    let policy: Option<CrashPolicy> = if prop.meta.id == "C17" { Some(c17::crash_policy) } else { None };
+    let res = run_sharded(prop.meta.id, tier, seed, plan.nshards, budget, plan.mem_gib, policy);
     let extra = (prop.extra)(&res);
     let code = finish(prop.meta, tier, seed, start.elapsed().as_secs_f64(), res, extra);
     std::process::exit(code);
